@@ -346,11 +346,10 @@ def sor : P String := do
   return v.render
 
 /-- `fsr rows… us… R | s1… reward` : CooperativeModel::sampleSR, one scan per state factor -/
-def fsr : P String := do
+def fsrWith (comp : String) : P String := do
   let rows ← P.qss; let us ← P.qs; let rexp ← P.q; P.bar
   let s1 ← P.nats; let rew ← P.q; P.eof
   if rows.length != us.length || rows.length != s1.length then P.fail
-  let comp := "CooperativeModel::sampleSR"
   let v : Verdict := { tag := "fsr" }
   let v := (rows.zip (us.zip s1)).foldl (fun v (row, ur) => denseOne comp row v ur) v
   let v := v.failIf (rew != rexp) s!"{comp} wrong_reward impl={ratStr rew} table={ratStr rexp}"
@@ -499,7 +498,8 @@ def handle (toks : List String) : String :=
     | "vsample" :: rest => P.run vsample rest
     | "sr" :: rest => P.run sr rest
     | "sor" :: rest => P.run sor rest
-    | "fsr" :: rest => P.run fsr rest
+    | "fsr" :: rest => P.run (fsrWith "CooperativeModel::sampleSR") rest
+    | "fsrml" :: rest => P.run (fsrWith "CooperativeMaximumLikelihoodModel::sampleSR") rest
     | "isprob" :: rest => P.run isprob rest
     | "spsr" :: rest => P.run spsr rest
     | "spsor" :: rest => P.run spsor rest
